@@ -29,6 +29,9 @@ HOW = {
     "C02-m5": "after look-ahead support in the matcher and after adding the model class to C02's lemma sweep; A[edits] now also breaks the line "
               "right after the model name",
     "C07-m5": "after adding the terminal-language obligations (B2) and the WORD lemma to C07 (they were only in C01)",
+    "C03-m7": "after adding A[cdecay-multi]: several CDecay statements in one file, one of them without a source and sorting first",
+    "C03-m8": "after adding A[cdecay-multi]: two names defined by both Decay and CDecay that are adjacent in sorted order",
+    "C09-m8": "after adding the re-parse history (same parser parsed before with the other include_ccdecays setting and queried)",
 }
 rows = []
 for d in sorted(glob.glob("/verif/seeded/C*/")):
@@ -51,7 +54,7 @@ out = ["Seeds: `-mN` written by independent sub-agents that saw only the propert
        "`tools/verify_seed.sh`: demo passes on the clean tree, fails with the patch, 282 tests still pass); `-aN` written by me from the changes",
        "the property texts report as surviving the suite; `-prefixFn` the reverse of my own fix commits. Every row was produced by",
        "`tools/seed_matrix.sh` (quick tier, scratch copy of /repo). *how* says whether the check caught the change as it stood when the change",
-       "arrived (\"first\") or what had to be added after a miss - 57 of the 84 sub-agent changes were caught at first try; the misses are the reason for the session-history dimension, the boundary values (zero, None, empty) and the symbolic-value harnesses.", "",
+       "arrived (\"first\") or what had to be added after a miss - 70 of the 100 sub-agent changes were caught at first try; the misses are the reason for the session-history dimension, the boundary values (zero, None, empty) and the symbolic-value harnesses.", "",
        "| seed | origin | change | caught by (first obligation that fails) | how |", "|---|---|---|---|---|"]
 for r in rows:
     out.append("| " + " | ".join(r) + " |")
@@ -60,5 +63,27 @@ p = "/verif/DESIGN.md"
 s = open(p).read()
 i = s.index("## 7. Seeded changes - who catches what")
 s = s[:i] + "## 7. Seeded changes - who catches what\n\n" + txt
+# ---- §8: behaviour-preserving refactorings (the other direction: no alarm where the property holds)
+r8 = ["", "## 8. Behaviour-preserving refactorings - nobody may alarm", "",
+      "The opposite experiment. `refactorings/RFn-*/patch.diff` rewrites code the properties are anchored in *without* changing what it",
+      "does (loops for comprehensions, helper rules in the grammars, a recursive instead of an iterative flatten, a correct call-local",
+      "memo, reordered grammar alternatives, character classes for alternations, ...). `tools/refactor_matrix.sh` applies each one to a",
+      "scratch copy of /repo, runs the repository's tests (282 must pass; the two failures in every row are the baseline's environmental ones) and the quick checks of every property the rewritten code",
+      "belongs to. A check that compared against incidental structure (state numbers of the LALR table, the order of terminals, the",
+      "shape of an intermediate list, one particular order of multiplications) would alarm here. Result of the last run: no VIOLATION",
+      "line and exit 0 in every cell; the one degradation is RF4 (recursive flatten), where CrossHair no longer closes the",
+      "symbolic-multiplicity shards of A[flatten] within the budget - reported as *inconclusive*, not as a violation.", "",
+      "| refactoring | what is rewritten | tests | checks run (exit, violations, verdict line) |", "|---|---|---|---|"]
+for d in sorted(glob.glob("/verif/refactorings/RF*/"), key=lambda x: int(re.search(r"RF(\d+)", x).group(1))):
+    meta = json.load(open(d + "meta.json"))
+    res = open(d + "result.txt").read().strip().splitlines() if os.path.exists(d + "result.txt") else []
+    tests = next((re.sub(r".*tests: exit=\d+ ", "", x) for x in res if " tests: " in x), "(not run)")
+    cells = []
+    for x in res:
+        m = re.match(r"\S+ check=(\S+) exit=(\d+) violations=(\d+) \[C\d+\] quick: (\d+/\d+) obligations discharged, (\d+) inconclusive", x)
+        if m:
+            cells.append(f"{m.group(1)}: exit {m.group(2)}, {m.group(3)} violations, {m.group(4)} discharged" + (f", {m.group(5)} inconclusive" if m.group(5) != "0" else ""))
+    r8.append(f"| {meta['name']} | {meta['summary']} | {tests} | " + "; ".join(cells) + " |")
+s += "\n".join(r8) + "\n"
 open(p, "w").write(s)
 print(len(rows), "rows written")
